@@ -225,7 +225,7 @@ theorem addDecl_records {bt : List Builtin} (F : Facts) (v2 : Bool) (hwf : WellF
     simp only [hw, Option.some.injEq] at hf
     subst hf
     have p3 := walk_inv bt F v2 fuel _ _ _ _ _ h2 hw
-    obtain ⟨d3, f3, r3⟩ := walk_desc bt F v2 hwf fuel _ ty none u3 o3 [] h2 d2 hw
+    obtain ⟨d3, f3, r3, _⟩ := walk_desc bt F v2 hwf fuel _ ty none u3 o3 [] h2 d2 hw
     have s3 := walk_side bt F v2 fuel _ _ _ _ _ hw
     have hob3 : u3.objs[(u.decl d n).2]? = some { ob with kind := .declarationOf } :=
       f3 _ _ (modify_get_eq hob) (by simp)
